@@ -26,7 +26,7 @@ def describe(tier):
                 "flag' - the whole result list (status, hints, format result, offered values) or the same exception class; through "
                 "validate_deep_anwendungshandbuch, validate_segment_level (root = segment group, and root = the first segment), and validate_segment. The rewriting is done on the reference "
                 "split (R5) of each expression. For the chain family also call SEQUENCES in one context (flag False then True; True, False, "
-                "True): each run equals its single run. Non-trivial = trees with SOLL at depth >= 2 (sub group, segment or data element).",
+                "True): each run equals its single run; and validations with DIFFERENT flag values in flight at once in one loop (True || False; False || True || False). Non-trivial = trees with SOLL at depth >= 2 (sub group, segment or data element).",
         "bounds": b,
         "exhaustive": True,
         "assumptions": [],
@@ -95,7 +95,7 @@ def worker_init():
     H.init()
 
 
-def check_sequence(shape, exprs, cer, flags):
+def check_sequence(shape, exprs, cer, flags, concurrent=False):
     """several validations awaited one after the other in ONE coroutine (one context): each must equal its own single run"""
     H.init()
     I = H.I
@@ -105,14 +105,19 @@ def check_sequence(shape, exprs, cer, flags):
         return None
     out = []
 
+    async def one(f):
+        try:
+            return ("ok", V.observe(await V.validate_deep_anwendungshandbuch(V.build_ahb(groups), f)))
+        except NotImplementedError:
+            return ("exc", "NotImplementedError")
+
     async def seq():
-        res = []
-        for f in flags:
-            try:
-                res.append(("ok", V.observe(await V.validate_deep_anwendungshandbuch(V.build_ahb(groups), f))))
-            except NotImplementedError:
-                res.append(("exc", "NotImplementedError"))
-        return res
+        if concurrent:
+            # the validations are IN FLIGHT AT ONCE (tasks of one loop, e.g. a server validating two messages)
+            import asyncio
+
+            return list(await asyncio.gather(*[one(f) for f in flags]))
+        return [await one(f) for f in flags]
 
     got = I.try_call(lambda: I.run(seq(), H.env(cer)))
     if got[0] == "exc":
@@ -121,7 +126,8 @@ def check_sequence(shape, exprs, cer, flags):
     for f, g in zip(flags, got[1]):
         single = V.run_validation(groups, H.env(cer), f)
         if g != single:
-            out.append({"kind": "flag-vs-rewrite/sequence", "case": {"shape": shape, "exprs": list(exprs), "cer": cer, "flags": list(flags)},
+            out.append({"kind": "flag-vs-rewrite/" + ("concurrent" if concurrent else "sequence"),
+                        "case": {"shape": shape, "exprs": list(exprs), "cer": cer, "flags": list(flags), "concurrent": concurrent},
                         "expected": repr(single)[:300], "observed": repr(g)[:300],
                         "msg": f"validations with soll_is_required={list(flags)} in one context: the run with {f} differs from a single run"})
             break
@@ -195,6 +201,8 @@ def run_item(item):
         if item["fam"] == "chain":
             for flags in ((False, True), (True, False, True)):
                 vs += check_sequence(shape, exprs, item["cer"], flags) or []
+            for flags in ((True, False), (False, True, False)):
+                vs += check_sequence(shape, exprs, item["cer"], flags, concurrent=True) or []
         r.evaluations += 1
         r.states += 1
         r.transitions += 12
@@ -213,6 +221,6 @@ def _tup(x):
 
 def replay(case):
     if "flags" in case:
-        return check_sequence(_tup(case["shape"]), case["exprs"], case["cer"], tuple(case["flags"])) or []
+        return check_sequence(_tup(case["shape"]), case["exprs"], case["cer"], tuple(case["flags"]), case.get("concurrent", False)) or []
     vs = check_case(_tup(case["shape"]), case["exprs"], case["cer"], case.get("variant", 0)) or []
     return vs
